@@ -48,6 +48,23 @@ def trigger_asts():
                           {"k": "if", "c": c, "t": [{"k": "var", "n": "x", "e": I(2)}, OUT(ID("x"))], "ei": [], "haselse": he, "f": [OUT(I(9))] if he else []},
                           OUT(ID("x")), {"k": "ref", "n": "r", "e": c}, EX(ID("x"))])
             progs.append([{"k": "ref", "n": "r", "e": c}, {"k": "asg", "l": ID("r"), "e": {"k": "bool", "v": False}}, OUT(ID("r")), EX(I(0))])
+    # Partial_Fold: `e op literal` with every combination of left type / literal type, with and without a script-defined operator for the pair
+    S = lambda v: {"k": "str", "v": v}
+    B = lambda v: {"k": "bool", "v": v}
+    lefts = [("int", I(3)), ("string", S("ab")), ("bool", B(True))]
+    for op in ("*", "+", "==", "<"):
+        for lt, lv in lefts:
+            for rt, rv in lefts:
+                for userop in (False, True):
+                    if op == "<" and lt == rt == "string":
+                        continue          # string ordering is built in but outside the reference
+                    prog = []
+                    if userop:
+                        prog.append({"k": "def", "n": op, "params": [{"n": "p", "ty": lt}, {"n": "q", "ty": rt}], "guarded": False, "guard": B(True),
+                                     "b": [OUT(ID("p")), OUT(ID("q")), EX(I(77))]})
+                    prog += [{"k": "var", "n": "x", "e": lv}, OUT({"k": "call", "f": "to_string", "a": [{"k": "bin", "op": op, "l": ID("x"), "r": rv}]}),
+                             fdef("g", [EX({"k": "bin", "op": op, "l": ID("a"), "r": rv})], ["a"]), OUT({"k": "call", "f": "to_string", "a": [{"k": "call", "f": "g", "a": [ID("x")]}]}), EX(I(0))]
+                    progs.append(prog)
     return progs
 
 
@@ -119,6 +136,11 @@ def run(ck, tier, seed):
     if pinned_diff == 0:
         raise lib.Infra("sanity: a Dead_Code pass that drops bare identifiers must change behaviour on the trigger family")
     ck.notes.append(f"sanity: with Dead_Code also dropping bare identifiers TLC finds {pinned_diff} programs whose behaviour changes (expected)")
+    res3 = lib.tlc("OptimizerExport", "OptimizerExport_pinned2", workers=1, env={"IN": inp, "OUT": out + ".pinned2"}, timeout=2400, heap="6g")
+    pinned2_diff = sum(1 for r in lib.read_ndjson(out + ".pinned2") if r["plain"] != r["optimized"])
+    if pinned2_diff == 0:
+        raise lib.Infra("sanity: a Partial_Fold that captures any literal must change behaviour on the operator-matrix family")
+    ck.notes.append(f"sanity: with Partial_Fold capturing any literal TLC finds {pinned2_diff} programs whose behaviour changes (expected)")
     # ---- the real engine, both parsers
     cases = []
     texts = {}
